@@ -361,10 +361,12 @@ def corrupt(data, f, xfer_in):
         data = bytearray([f["byte"] & 0xFF]) * n
     elif mode == "tail":
         data = data + bytes.fromhex(f["data"])
-    elif mode == "field":
-        off, width, val = f["off"], f["width"], f["val"]
-        if off + width <= len(data):
-            data[off:off + width] = (val & ((1 << (8 * width)) - 1)).to_bytes(width, "big")
+    elif mode == "fields":
+        for off, width, val in f["fields"]:
+            if off + width <= len(data):
+                data[off:off + width] = (val & ((1 << (8 * width)) - 1)).to_bytes(width, "big")
+                if val == 0:
+                    WORLD.probe("zero_length_field")
     return bytes(data)
 
 
